@@ -2,13 +2,15 @@
 # Build the Coq development from files on disk only (offline). Run once after a fresh restore.
 set -e
 cd "$(dirname "$0")"
-export PYTHONPATH=/repo:/verif PYTHONHASHSEED=0 PYTHONDONTWRITEBYTECODE=1
+export VERIF_REPO="${VERIF_REPO:-/repo}"
+export PYTHONPATH="$VERIF_REPO:$PWD" PYTHONHASHSEED=0 PYTHONDONTWRITEBYTECODE=1
 mkdir -p build evidence coq/gen
 # no axioms / admits / disabled checks anywhere in the development
 if grep -rnE '\b(Admitted|admit|Axiom|Parameter|Conjecture|Unset Guard|bypass_check|Admit Obligations)\b' coq --include='*.v' | grep -v '^coq/gen/' | grep -vE '\(\*.*(Admitted|Axiom|Parameter).*\*\)'; then
   echo "forbidden vernacular found" >&2; exit 1
 fi
 /venv/bin/python -m harness.srcfacts > /dev/null
+/venv/bin/python -c "from harness.main import ensure_makefile; ensure_makefile()"
 cd coq
 coq_makefile -f _CoqProject -o Makefile > /dev/null
 timeout 3000 make -j12 2>&1 | tail -5
